@@ -425,6 +425,9 @@ PROPS["C16"] = {
         ("R-DERIV-KEY", rm.rule_deriv_key, {}),
         ("R-COLUMN-ORDER", rm.rule_column_order, {}),
         ("R-DECLARED-ORDER", rm.rule_declared_order, {}),
+        # "taken from the current parameter vector": the stored vector always has the model's parameter count (a refused
+        # vector is not stored), otherwise the index mapping of the routing would not address it
+        ("R-ERR-STATE-PRESERVING", rm.rule_err_state_preserving, {}),
     ],
     "explanation": "Index typing of the routing: in each of the 10 arity dispatch impls argument slot i receives clone(params[i]) with ARGUMENT_COUNT = N under the length guard; the index mapping is the position of the f-th function parameter in the model list in declaration order and the wrapper pushes params[mapping[f]] in that order (same wrapper for functions and derivatives); "
                    "the derivative map key is the enumerate index over the model parameter list (not taken after a filter) and eval_partial_deriv looks up the requested index in a zero-initialised matrix; column j of eval / eval_partial_deriv is written from the j-th function (resp. its derivative stored under the requested index) evaluated on x and the current parameters (canonical column writes: zip, index loop, try_for_each and shared helpers coincide) and the list is only ever pushed to; set_params stores the vector unchanged; the function builder stores exactly the two name lists the function was wrapped with, wraps every derivative with them and never reorders them (R-DECLARED-ORDER).",
